@@ -724,6 +724,10 @@ class CallMixin:
             for t, n in m.items():
                 if isinstance(x.ty, t):
                     return Callable_("builtin", n)
+        if isinstance(x, PyDict):
+            return Callable_("builtin", "dict")
+        if isinstance(x, PyList):
+            return Callable_("builtin", "tuple" if x.is_tuple else "list")
         if isinstance(x, Val) and isinstance(x.ty, TOpaque):
             # the run-time class of an opaque value: an uninterpreted function of the value
             (srt,) = x.ty.comps()
